@@ -71,12 +71,13 @@ def step (d : Dump) : HOp → Dump × Ret
     | some _ => (modifyObj d i (fun o => { o with subtype := s }), .ok 0)
 
 /-- gp_index / type stability between two consecutive dumps: every object of `new` whose gp_index
-existed in `old` has the same type and os_index; new gp_index values are above all old ones -/
+existed in `old` has the same type and (except for Groups, whose contents are legitimately replaced by those
+of an equal inserted Group that wins the merge) the same os_index; new gp_index values are above all old ones -/
 def gpStable (old new : Dump) : Bool :=
   let maxOld := old.objs.foldl (fun m o => max m o.gp) 0
   new.objs.all (fun o =>
     match old.objs.find? (fun p => p.gp == o.gp) with
-    | some p => p.type == o.type && p.osidx == o.osidx
+    | some p => p.type == o.type && (p.osidx == o.osidx || o.type == tGROUP)
     | none => decide (maxOld < o.gp))
 
 end Hw.Topo.Hist
